@@ -1019,11 +1019,18 @@ impl SparqlDatabase {
                     let object_raw = object_tokens.join(" ");
 
                     // Handle annotation syntax {| ... |}
-                    let (object_part, annotations) = if let Some(ann_start) = object_raw.find("{|")
-                    {
+                    // an annotation block can only follow the object term (the first token)
+                    let object_end = object_tokens[0].len();
+                    let annotation_start = object_raw[object_end..]
+                        .find("{|")
+                        .map(|offset| offset + object_end);
+                    let (object_part, annotations) = if let Some(ann_start) = annotation_start {
                         let obj = object_raw[..ann_start].trim().to_string();
 
-                        if let Some(ann_end) = object_raw.find("|}") {
+                        if let Some(ann_end) = object_raw[ann_start..]
+                            .find("|}")
+                            .map(|offset| offset + ann_start)
+                        {
                             let ann_content = object_raw[ann_start + 2..ann_end].trim();
                             let ann_parts: Vec<&str> =
                                 ann_content.splitn(2, char::is_whitespace).collect();
@@ -1256,7 +1263,7 @@ impl SparqlDatabase {
             term.to_string()
         } else if term.starts_with('<') && term.ends_with('>') {
             term[1..term.len() - 1].to_string()
-        } else if term.starts_with('"') && term.ends_with('"') {
+        } else if term.len() >= 2 && term.starts_with('"') && term.ends_with('"') {
             term[1..term.len() - 1].to_string()
         } else {
             term.trim_matches('"').to_string()
